@@ -8,6 +8,7 @@ import (
 	"go/types"
 	"os"
 	"path/filepath"
+	"strconv"
 	"strings"
 
 	"golang.org/x/tools/go/ssa"
@@ -464,7 +465,132 @@ func (e *Exec) mapHavoc(args []Value) Value {
 // ---------------------------------------------------------------------------
 // stubs for external callees
 
+// pureStrings: pure functions of package strings / strconv that are evaluated by
+// the real library when every argument is concrete (a literal string or a
+// constant integer); with a symbolic argument they stay unsupported.
+func (e *Exec) pureStrings(full string, args []Value) (Value, bool) {
+	if !strings.HasPrefix(full, "strings.") && !strings.HasPrefix(full, "strconv.") {
+		return nil, false
+	}
+	str := func(i int) (string, bool) {
+		if i >= len(args) {
+			return "", false
+		}
+		s, ok := args[i].(*StringV)
+		if !ok || s.isSym {
+			return "", false
+		}
+		return s.lit, true
+	}
+	num := func(i int) (int, bool) {
+		if i >= len(args) {
+			return 0, false
+		}
+		t, ok := args[i].(*Term)
+		if !ok || t.op != OpConst {
+			return 0, false
+		}
+		return int(sx(t.val, t.w)), true
+	}
+	S := func(x string) (Value, bool) { return &StringV{lit: x}, true }
+	B := func(x bool) (Value, bool) { return e.st.Bool(x), true }
+	I := func(x int) (Value, bool) { return e.c64(int64(x)), true }
+	a, okA := str(0)
+	b, okB := str(1)
+	c, okC := str(2)
+	switch full {
+	case "strings.ReplaceAll":
+		if okA && okB && okC {
+			return S(strings.ReplaceAll(a, b, c))
+		}
+	case "strings.Replace":
+		if n, ok := num(3); ok && okA && okB && okC {
+			return S(strings.Replace(a, b, c, n))
+		}
+	case "strings.ToUpper":
+		if okA {
+			return S(strings.ToUpper(a))
+		}
+	case "strings.ToLower":
+		if okA {
+			return S(strings.ToLower(a))
+		}
+	case "strings.TrimSpace":
+		if okA {
+			return S(strings.TrimSpace(a))
+		}
+	case "strings.Trim":
+		if okA && okB {
+			return S(strings.Trim(a, b))
+		}
+	case "strings.TrimLeft":
+		if okA && okB {
+			return S(strings.TrimLeft(a, b))
+		}
+	case "strings.TrimRight":
+		if okA && okB {
+			return S(strings.TrimRight(a, b))
+		}
+	case "strings.TrimPrefix":
+		if okA && okB {
+			return S(strings.TrimPrefix(a, b))
+		}
+	case "strings.TrimSuffix":
+		if okA && okB {
+			return S(strings.TrimSuffix(a, b))
+		}
+	case "strings.Repeat":
+		if n, ok := num(1); ok && okA && n >= 0 && n < 1<<16 {
+			return S(strings.Repeat(a, n))
+		}
+	case "strings.HasPrefix":
+		if okA && okB {
+			return B(strings.HasPrefix(a, b))
+		}
+	case "strings.HasSuffix":
+		if okA && okB {
+			return B(strings.HasSuffix(a, b))
+		}
+	case "strings.Contains":
+		if okA && okB {
+			return B(strings.Contains(a, b))
+		}
+	case "strings.EqualFold":
+		if okA && okB {
+			return B(strings.EqualFold(a, b))
+		}
+	case "strings.Index":
+		if okA && okB {
+			return I(strings.Index(a, b))
+		}
+	case "strings.LastIndex":
+		if okA && okB {
+			return I(strings.LastIndex(a, b))
+		}
+	case "strings.Count":
+		if okA && okB {
+			return I(strings.Count(a, b))
+		}
+	case "strings.IndexByte":
+		if n, ok := num(1); ok && okA {
+			return I(strings.IndexByte(a, byte(n)))
+		}
+	case "strconv.Itoa":
+		if n, ok := num(0); ok {
+			return S(strconv.Itoa(n))
+		}
+	case "strconv.Quote":
+		if okA {
+			return S(strconv.Quote(a))
+		}
+	}
+	return nil, false
+}
+
 func (e *Exec) stub(fn *ssa.Function, full string, args []Value) (Value, bool) {
+	if r, ok := e.pureStrings(full, args); ok {
+		return r, true
+	}
 	switch full {
 	case "log.Printf", "(*log.Logger).Printf", "log.Println", "log.Print":
 		e.events = append(e.events, Event{Kind: "warn"})
